@@ -1,6 +1,7 @@
 //! Engine-B properties: C02 (acknowledged durability), C03 (any crash reopens to authentic
 //! contents), C04 (recovery idempotent / restartable).
 
+use std::collections::HashSet;
 use std::sync::atomic::{AtomicU64, Ordering};
 use std::sync::{Arc, Mutex};
 
@@ -356,6 +357,93 @@ pub fn accounting_campaign(tier: Tier, seed: u64) -> (i32, Value) {
     recovery_campaign("C13", "memory-accounting-after-recovery", tier, seed)
 }
 
+/// C12 (restart clause): right after recovering any crash image or synthesised image, automatic
+/// writes on recovered keys are accepted with timestamps above the recovered ones.
+pub fn clock_campaign(tier: Tier, seed: u64) -> (i32, Value) {
+    let (code, mut summary) = recovery_campaign("C12", "auto-write-after-recovery", tier, seed);
+    let images = Arc::new(AtomicU64::new(0));
+    let nt = Arc::new(Mutex::new(HashSet::<u64>::new()));
+    let (i2, n2) = (images.clone(), nt.clone());
+    let check = move |spec: &(u32, Vec<crate::props::c15::Item>, Vec<u8>, bool, bool), counting: bool| -> Result<(), String> {
+        synth_clock_check(spec, counting.then_some((&i2, &n2)))
+    };
+    let strat = (
+        proptest::prelude::prop_oneof![Just(1u32), Just(2u32), Just(3u32), Just(3u32)],
+        proptest::collection::vec(crate::props::c15::item(), 1..24),
+        proptest::collection::vec(proptest::prelude::any::<u8>(), 0..3),
+        proptest::prelude::any::<bool>(),
+        proptest::bool::weighted(0.8),
+    )
+        .boxed();
+    let found = run_lanes(strat, tier.pick(1500, 16_000), 300, seed ^ 0xC12, env::threads(), check);
+    env::wait_reaper();
+    let mut code = code;
+    let mut sfail = Value::Null;
+    if let Some((spec, msg)) = found {
+        let replay = json!({"property": "C12", "engine": "synth_clock", "signature": "auto-write-after-recovery", "message": msg, "spec": serde_json::to_value(&spec).unwrap()});
+        if !env::report_violation("C12", "auto-write-after-recovery", &replay) {
+            code = 1;
+            eprintln!("fxv: C12 (synthesised images): {msg}");
+        }
+        sfail = json!({"message": msg});
+    }
+    let n = nt.lock().unwrap().len() as u64;
+    summary["synthesised_images"] = json!({"images": images.load(Ordering::Relaxed), "duplicate_generations_ahead_of_the_clock": n, "failure": sfail});
+    summary["images"] = json!(summary["images"].as_u64().unwrap_or(0) + images.load(Ordering::Relaxed));
+    summary["distinct_nontrivial"] = json!(summary["distinct_nontrivial"].as_u64().unwrap_or(0) + n);
+    (code, summary)
+}
+
+type SynthClockSpec = (u32, Vec<crate::props::c15::Item>, Vec<u8>, bool, bool);
+
+fn synth_clock_check(spec: &SynthClockSpec, counters: Option<(&Arc<AtomicU64>, &Arc<Mutex<HashSet<u64>>>)>) -> Result<(), String> {
+    let (version, items, journal_items, ttl, future) = spec;
+    let items: Vec<crate::props::c15::Item> = items.iter().filter(|i| !matches!(i, crate::props::c15::Item::Tombstone)).cloned().collect();
+    let now = crate::props::c15::NOW;
+    // generation timestamps ahead of the recovery clock (accepted explicit timestamps) or far behind it
+    let base = if *future { now + 1_000_000_000_000 } else { 1000 };
+    let img = crate::props::c15::build_synth_ts(*version, &items, journal_items, false, base);
+    let cfg = crate::ops::Config { persistent: true, version: *version, cache: false, ttl: *ttl, dev: crate::ops::DevSize::Tiny(0), max_memory: None, plain_io: true, legacy_plain_meta: false, visible_cpus: 2 };
+    crash::PROBE_CLOCK.with(|c| c.set(true));
+    let r = crash::open_image(&img, &cfg, now, false, false);
+    crash::PROBE_CLOCK.with(|c| c.set(false));
+    if let Some((images, nt)) = counters {
+        images.fetch_add(1, Ordering::Relaxed);
+        if *future {
+            if let Ok(dec) = crate::layout::decode_image(&img) {
+                if dec.all_records.len() > dec.live.len() {
+                    nt.lock().unwrap().insert(env::fnv(&img[16 * 4096..]));
+                }
+            }
+        }
+    }
+    match r {
+        Ok(o) => match o.contents.clock_problem {
+            Some(msg) => Err(format!("[auto-write-after-recovery] right after recovering a synthesised v{version} image (generation timestamps from {base}, recovery clock {now}): {msg}")),
+            None => Ok(()),
+        },
+        Err(_) => Ok(()),
+    }
+}
+
+pub fn replay_synth_clock(path: &str) -> i32 {
+    let doc: Value = serde_json::from_str(&std::fs::read_to_string(path).expect("read replay")).expect("parse replay");
+    let spec: SynthClockSpec = serde_json::from_value(doc["spec"].clone()).expect("spec");
+    let r = synth_clock_check(&spec, None);
+    env::wait_reaper();
+    match r {
+        Err(e) => {
+            println!("replay: {e}");
+            println!("VIOLATION property=C12 replay={path}");
+            1
+        }
+        Ok(()) => {
+            println!("replay: automatic writes follow the recovered timestamps of the saved image on this tree");
+            0
+        }
+    }
+}
+
 fn recovery_campaign(which: &'static str, signature: &'static str, tier: Tier, seed: u64) -> (i32, Value) {
     let totals = Arc::new(Mutex::new(CrashStats::default()));
     let workloads = Arc::new(AtomicU64::new(0));
@@ -363,7 +451,13 @@ fn recovery_campaign(which: &'static str, signature: &'static str, tier: Tier, s
     let mut b = bias("C03", tier);
     b.multi_block = 10;
     b.hostile = 0;
+    if which == "C12" {
+        b.ts_explicit = 10;
+        b.near_max_ts = false;
+    }
     let (t2, w2, lf) = (totals.clone(), workloads.clone(), last_failure.clone());
+    let lf_now = Arc::new(AtomicU64::new(0));
+    let lf_now2 = lf_now.clone();
     let check = move |case: &Case, counting: bool| -> Result<(), String> {
         let run = crash::run_workload(case);
         if !run.usable {
@@ -374,7 +468,9 @@ fn recovery_campaign(which: &'static str, signature: &'static str, tier: Tier, s
         let mut bud = budget(tier);
         bud.torn = 0;
         bud.extra_masks = 1;
+        crash::PROBE_CLOCK.with(|c| c.set(which == "C12"));
         let f = crash::explore(&run, case, which, &bud, &mut st, fp);
+        crash::PROBE_CLOCK.with(|c| c.set(false));
         if counting {
             w2.fetch_add(1, Ordering::Relaxed);
             t2.lock().unwrap().merge(&st);
@@ -385,6 +481,7 @@ fn recovery_campaign(which: &'static str, signature: &'static str, tier: Tier, s
                 let (durable, volatile) = crate::trace::split_at(&run.entries, f.spec.p);
                 let img = crate::trace::build_image(&run.base, &run.entries, &durable, &volatile, &f.spec.subset, f.spec.torn);
                 let msg = format!("[{}] {}", f.signature, f.msg);
+                lf_now2.store(crash::point_info(&run.entries, f.spec.p, crate::ops::T0 + case.t0_offset).now, Ordering::Relaxed);
                 *lf.lock().unwrap() = Some((f, img));
                 Err(msg)
             }
@@ -397,7 +494,7 @@ fn recovery_campaign(which: &'static str, signature: &'static str, tier: Tier, s
     let mut failure = Value::Null;
     if let Some((case, msg)) = found {
         let image = last_failure.lock().unwrap().take().map(|(_, i)| i).unwrap_or_default();
-        let replay = json!({"property": which, "engine": "crash_accounting", "signature": signature, "message": msg, "case": serde_json::to_value(&case).unwrap(), "image_deflate_hex": hex(&miniz_oxide::deflate::compress_to_vec(&image, 6))});
+        let replay = json!({"property": which, "engine": "crash_accounting", "signature": signature, "message": msg, "recovery_clock": lf_now.load(Ordering::Relaxed), "case": serde_json::to_value(&case).unwrap(), "image_deflate_hex": hex(&miniz_oxide::deflate::compress_to_vec(&image, 6))});
         if !env::report_violation(which, signature, &replay) {
             code = 1;
             eprintln!("fxv: {which} (recovery of crash images): {msg}");
@@ -408,7 +505,8 @@ fn recovery_campaign(which: &'static str, signature: &'static str, tier: Tier, s
         "images": t.images,
         "workloads": workloads.load(Ordering::Relaxed),
         "distinct_nontrivial": t.nontrivial_c04.len(),
-        "rule": if which == "C13" { "crash images of generated persistent workloads (same crash-state model as C03, without tearing) are reopened; right after recovery memory_usage() must equal the sum over the recovered records of (size_of::<Record>() + key length + value length). Non-trivial: an image that held more than one generation of some key." } else { "crash images of generated persistent workloads (crash-state model of C03, without tearing) and codec-synthesised v1/v2/v3 images (duplicate generations in both scan orders, expired winners, complete and pending markers, gaps, active journals) are reopened; right after recovery the snapshot must partition the data area exactly: every block in exactly one live extent or in the free pool, free runs merged, usage counter equal to the live blocks. Non-trivial: an image that held more than one generation of some key." },
+        "class_counts": t.counters,
+        "rule": if which == "C12" { "crash images of generated persistent workloads with explicit timestamps (relative to the key's current one and to the clock, up to 10^15 ns ahead; crash-state model of C03 without tearing) are reopened at the crash's virtual time; right after recovery an automatic insert on the recovered keys with the highest timestamps (and the first two keys) must be accepted and get a timestamp above the recovered one; images holding a timestamp within 2^20 of u64::MAX are skipped (saturation range of the known finding). Synthesised v1/v2/v3 images (duplicate generations in both scan orders, timestamps ahead of or behind the recovery clock) get the same probe. Non-trivial: a probed image whose recovered timestamps lie ahead of the recovery clock / a synthesised image with duplicate generations ahead of the clock." } else if which == "C13" { "crash images of generated persistent workloads (same crash-state model as C03, without tearing) are reopened; right after recovery memory_usage() must equal the sum over the recovered records of (size_of::<Record>() + key length + value length). Non-trivial: an image that held more than one generation of some key." } else { "crash images of generated persistent workloads (crash-state model of C03, without tearing) and codec-synthesised v1/v2/v3 images (duplicate generations in both scan orders, expired winners, complete and pending markers, gaps, active journals) are reopened; right after recovery the snapshot must partition the data area exactly: every block in exactly one live extent or in the free pool, free runs merged, usage counter equal to the live blocks. Non-trivial: an image that held more than one generation of some key." },
         "failure": failure,
     });
     (code, summary)
@@ -420,12 +518,19 @@ pub fn replay_accounting(path: &str) -> i32 {
     let mut code = 0;
     if let Some(h) = doc["image_deflate_hex"].as_str() {
         if let Ok(img) = miniz_oxide::inflate::decompress_to_vec(&unhex(h)) {
-            if let Ok(o) = crash::open_image(&img, &case.cfg, crate::ops::T0 + case.t0_offset, false, false) {
+            crash::PROBE_CLOCK.with(|c| c.set(doc["property"].as_str() == Some("C12")));
+            let now = doc["recovery_clock"].as_u64().unwrap_or(crate::ops::T0 + case.t0_offset);
+            if let Ok(o) = crash::open_image(&img, &case.cfg, now, false, false) {
                 if let (Some((sig, msg)), Some("C05")) = (&o.contents.partition_problem, doc["property"].as_str()) {
                     println!("replay: [{sig}] {msg}");
                     code = 1;
                 }
-                if doc["property"].as_str() != Some("C05") && o.contents.memory_usage != o.contents.memory_expected {
+                if doc["property"].as_str() == Some("C12") {
+                    if let Some(msg) = &o.contents.clock_problem {
+                        println!("replay: {msg}");
+                        code = 1;
+                    }
+                } else if doc["property"].as_str() != Some("C05") && o.contents.memory_usage != o.contents.memory_expected {
                     println!("replay: memory_usage()={} but the recovered records sum to {}", o.contents.memory_usage, o.contents.memory_expected);
                     code = 1;
                 }
